@@ -60,6 +60,11 @@ def run(res, tier):
         res.instance("C17.rows-read", i["key"], i["at"], i["detail"])
     for v in sub.violations:
         res.violation("C17.rows-read", v["file"], v["function"], v["key"], v["line"], v["msg"] + " - getAllParticlesData / getAllParticlesRhs and rebuild() read the leaves through these pointers")
+    res.rule("C17.preserved-results: what the exports return after a rebuild is what rebuild() gathered and scattered back - per-particle arrays by original index then value, per-leaf rows by value then position, results scattered from the gathered array (rule C13.2)")
+    import c13 as _c13
+    _sub13 = tbf.Result("C13")
+    _c13.run(_sub13, "quick")
+    tbf.reexport(res, _sub13, ("C13.2",), "C17.preserved-results", min_instances=2)
     # the target/source tree only forwards
     for q, want in (("TbfTreeTsm::getAllParticlesDataSource", "treeSource.getAllParticlesData"), ("TbfTreeTsm::getAllParticlesDataTarget", "treeTarget.getAllParticlesData"),
                     ("TbfTreeTsm::getAllParticlesRhsTarget", "treeTarget.getAllParticlesRhs")):
